@@ -166,3 +166,20 @@ Example reuse_example :
   /\ build_ret gg_st gg_cat gg_structs "Get" [gg_col "bio" "text" false; gg_col "id" "pg_catalog.int4" true]
     = Ok (mkVO true "i" "" (Some (mkGSt "GetRow" ("", "") [("Bio", "sql.NullString", ""); ("ID", "int32", "")]))).
 Proof. vm_compute. split; reflexivity. Qed.
+
+(** without renames the rename-aware goType is the goType of Model/GoTypes.v (C09, C15) *)
+Lemma struct_name_rn_nil n : struct_name_rn [] n = struct_name n.
+Proof. reflexivity. Qed.
+Lemma pg_scan_types_r_nil c sname rs rnm nn ts : pg_scan_types_r [] c sname rs rnm nn ts = pg_scan_types c sname rs rnm nn ts.
+Proof. induction ts as [|[n v cm|n cm] ts IH]; simpl; [reflexivity| |]; rewrite IH; reflexivity. Qed.
+Lemma pg_scan_schemas_r_nil c rs rnm nn ss : pg_scan_schemas_r [] c rs rnm nn ss = pg_scan_schemas c rs rnm nn ss.
+Proof. induction ss as [|s ss IH]; simpl; [reflexivity|]. rewrite IH, pg_scan_types_r_nil. reflexivity. Qed.
+Theorem go_type_ov_r_nil ovs c tbl colname dt nn arr :
+  pg_go_type_ov_r [] ovs c tbl colname dt nn arr = go_type_ov ovs PostgreSQL c tbl colname dt nn arr false.
+Proof.
+  unfold pg_go_type_ov_r, go_type_ov, postgres_type_r, postgres_type, pg_default_r, pg_default.
+  destruct (column_override ovs (cat_default c) tbl colname); [reflexivity|].
+  destruct (dbtype_override ovs dt (nn || arr)); [reflexivity|].
+  destruct (lookup_entry pg_type_table dt); [reflexivity|].
+  destruct (split_on "." dt) as [|a [|b [|d [|e l]]]]; try reflexivity; rewrite pg_scan_schemas_r_nil; reflexivity.
+Qed.
